@@ -1337,6 +1337,10 @@ class Interp:
         env.vars.update(bound)
         if isinstance(fnode, ast.Lambda):
             return self.ev(fnode.body, env)
+        for d in getattr(fnode, "decorator_list", []):
+            dn = ast.unparse(d.func if isinstance(d, ast.Call) else d)
+            if dn.split(".")[-1] not in ("staticmethod", "classmethod", "abstractmethod", "property", "predicate"):
+                self.unsupported(node, f"call of {fv.name} whose decorator @{dn} is not modelled")
         env.local_names = assigned_names(fnode) | set(bound)
         return self.run_body(fnode, env)
 
@@ -1868,6 +1872,10 @@ class Interp:
         items = self.concrete_iter(it)
         if rule is not None and rule.kind == "inv":
             return self.loop_inv(target, it, body, env, node, label, rule)
+        if rule is not None and rule.kind == "acc":
+            # loop("loopN", "acc"): treat even a concrete iterable by the accumulation / search rule (one arbitrary element)
+            # instead of unrolling it -- same meaning, far fewer paths for long constant alphabets
+            return self.loop_acc(target, it, body, env, node, label, child_env)
         if items is not None and len(items) <= 64:
             for x in items:
                 self.assign(target, x, env, node)
@@ -1898,6 +1906,7 @@ class Interp:
             frame["emits"] = []
             frame["fresh"] = []
             frame["fresh_funs"] = []
+            frame["witness"] = []
             frame["pc_mark"] = len(ctx.pc)
             opts = self.element_options(it, node)
             if not opts:
@@ -1922,9 +1931,9 @@ class Interp:
             except BreakSig:
                 self.unsupported(node, "break inside an accumulation loop (needs an invariant)")
             except ReturnSig as r:
-                return ("return", list(frame["bvars"]), list(frame["emits"]), r.value)
+                return ("return", list(frame["bvars"]) + list(frame["witness"]), list(frame["emits"]), r.value)
             except PyRaise as r:
-                return ("raise", list(frame["bvars"]), list(frame["emits"]), r)
+                return ("raise", list(frame["bvars"]) + list(frame["witness"]), list(frame["emits"]), r)
             return ("fall", list(frame["bvars"]), list(frame["emits"]), None)
         try:
             subs = explore_sub(ctx, run)
@@ -1943,6 +1952,10 @@ class Interp:
             if ch > 0:
                 bv, cond, kind, val = exits[ch - 1]
                 ctx.assume(cond)
+                # the exiting element (and the exiting elements of loops nested in it) are existential witnesses for every
+                # enclosing search loop: "no element exits" there must range over them too
+                for fr in ctx.acc_frames:
+                    fr.setdefault("witness", []).extend(bv)
                 if kind == "return":
                     raise ReturnSig(val)
                 raise val
@@ -1974,11 +1987,26 @@ class Interp:
             rng = z3.And(k >= 0, k < n) if not isinstance(it, self.externs.VRange) else z3.And(k >= it.lo, k < it.hi)
             if not z3.eq(z3.simplify(site.cond), z3.simplify(rng)):
                 return False
+            if not z3.is_true(z3.simplify(site.cond_d)):
+                return False          # emission depends on a computed value: not an unconditional map
             tgts[id(tgt)] = (tgt, site)
         for tgt, site in tgts.values():
             base = 0 if not isinstance(it, self.externs.VRange) else it.lo
             elem = site.elem
-            new = SymSeq(n, lambda j, elem=elem: vsubst(elem, [(k, j + base if not isinstance(base, int) else j)]))
+            hsub = []
+            if site.hvars:
+                # values computed in the body (callee results, fresh library objects) differ from element to element: they
+                # become functions of the loop variable, and what is known about them holds for every element
+                funs = [self.ctx.fresh_fun(str(h).replace("!", "_") + "_at", z3.IntSort(), h.sort()) for h in site.hvars]
+                hsub = [(h, f) for h, f in zip(site.hvars, funs)]
+                kk = z3.Int("k!om")
+                known = z3.substitute(site.cond_h, *([(k, kk)] + [(h, f(kk)) for h, f in hsub]))
+                rng_kk = z3.substitute(rng, (k, kk))
+                if not z3.is_true(z3.simplify(site.cond_h)):
+                    self.ctx.assume(z3.ForAll([kk], z3.Implies(rng_kk, known)))
+            new = SymSeq(n, lambda j, elem=elem, hsub=hsub: vsubst(
+                elem, [(k, j + base if not isinstance(base, int) else j)]
+                + [(h, f(j + base if not isinstance(base, int) else j)) for h, f in hsub]))
             tgt.content = self.seq_concat(tgt.content, new, node) if not (
                 isinstance(tgt.content, ConcreteSeq) and not tgt.content.items) else new
         return True
